@@ -124,6 +124,29 @@ func run(cfg lib.Cfg) error {
 		}
 		judge(sc, "corpus-trace-cached-segment")
 	}
+	// corpus: two integrations with DIFFERENT events on one source and one real client, both
+	// with header plans (shared cached blocks); transactions emit both events; task B's load
+	// lands between task A's load and A's insert (statement-level schedule).  Each table must
+	// be its declared projection: what B attaches to a shared block must not replace A's logs.
+	for v := 0; v < 3; v++ {
+		sc := &ts.Scenario{Name: fmt.Sprintf("corpus-two-events-one-transaction-%d", v), Seed: uint64(21 + v), Head: 9, Real: true,
+			Gen:  ts.GenOpts{MaxTxs: 2, MaxLogs: 4, Created: true, Decoys: true},
+			Srcs: []ts.SrcSpec{{Name: "main", ChainID: 1, Batch: 3, Conc: 1, URL: "http://main.invalid"}},
+			IGs: []ts.IGSpec{
+				{Name: "ig1", Shape: "log", Table: "t1", Sources: []ts.SrcRef{{Name: "main", Start: 1}}},
+				{Name: "ig2", Shape: "created", Table: "t2", Hdr: true, Sources: []ts.SrcRef{{Name: "main", Start: 1}}},
+			}}
+		for k := 0; k < 4; k++ {
+			a, b := 1, 2
+			if (k+v)%2 == 1 {
+				a, b = 2, 1
+			}
+			// a has loaded and committed its first transaction; b runs a whole step; a inserts
+			sc.Acts = append(sc.Acts, ts.Act{Do: "advuntil", Tid: a, Call: "Commit"}, ts.Act{Do: "step", Tid: b}, ts.Act{Do: "drain"})
+		}
+		sc.Acts = append(sc.Acts, ts.Act{Do: "step", Tid: 1}, ts.Act{Do: "step", Tid: 2}, ts.Act{Do: "step", Tid: 1}, ts.Act{Do: "step", Tid: 2})
+		judge(sc, "corpus-two-events-one-transaction")
+	}
 	// corpus: an event with a selected string[] argument whose elements are sometimes empty
 	// (the decode buffer of the integration is reused from log to log: an empty element after
 	// a non-empty one in the same row slot must come out empty)
